@@ -73,7 +73,18 @@ class Validate:
         cfg = self.cfg
         sh = cfg['shape']
         log = []
+        from harness.keys import module_state
+        module_state().reset()
         real, stub = make_pair(sh, cfg['kind'], log)
+        if cfg['kind'] == 'func' and (sh['npos'] or sh['nkwo']):
+            # another callable form of the same function has been inspected before: a partial that binds every parameter by keyword
+            allnames = [POS[i] for i in range(sh['npos'])] + [KWO[i] for i in range(sh['nkwo'])]
+            try:
+                klepto.isvalid(functools.partial(real, **{n: ctx.atom(ArgSort, 'pp') for n in allnames}))
+            except (PathPruned, Inconclusive):
+                raise
+            except Exception:
+                pass
         part = cfg.get('partial')
         if part:
             npos_fixed, kw_fixed = part
@@ -93,6 +104,18 @@ class Validate:
             binds = True
         except TypeError:
             binds = False
+        # the known defect (validate ignores keyword-only parameters) predicts: klepto answers as Python would for the
+        # same signature without its keyword-only parameters; any other disagreement is a different defect
+        binds_nokw = None
+        if sh['nkwo'] and cfg['kind'] in ('func', 'method', 'instance', 'wrapped'):
+            _r, stub_nk = make_pair(dict(sh, nkwo=0, kwodef=[]), cfg['kind'], [])
+            if part:
+                stub_nk = functools.partial(stub_nk, *fa, **fk)
+            try:
+                stub_nk(*args, **kwds)
+                binds_nokw = True
+            except TypeError:
+                binds_nokw = False
         call = 'f(%d positional%s)' % (n, ''.join(', %s=' % k for k in kwds))
         try:
             got = klepto.isvalid(real, *args, **kwds)
@@ -110,7 +133,7 @@ class Validate:
             raised = e
         kwonly = sh['nkwo'] > 0
         diag = {}
-        if kwonly and (bool(got) != binds):
+        if kwonly and (bool(got) != binds) and (binds_nokw is None or bool(got) == binds_nokw):
             diag = {'diagnosed': True}
         kind = 'isvalid=%s but Python %s the call' % (got, 'binds' if binds else 'rejects')
         if diag:
